@@ -1766,6 +1766,11 @@ class Executor:
             key = ("boxed", str(v.t))
             if key in s.flags:
                 return self.unpack(s.flags[key], n, s, node)
+            if v.hint == ("lib", "mergetuple") and n == 2:
+                # an entry of ruamel's CommentedMap.merge: an (index, mapping) pair (assumed library shape)
+                cid = s.sid(V.get_rid(v.t))
+                s.assume(z3.And(V.is_Ref(v.t), V.kind_of(V.get_rid(v.t)) == V.K_TUPLE, V.seq_len(cid) == 2))
+                return [Z(V.seq_item(cid, z3.IntVal(0))), Z(V.seq_item(cid, z3.IntVal(1)))]
         raise Unsupported("unpacking a symbolic value", node)
 
     def st_AugAssign(self, stmt, st):
